@@ -43,10 +43,14 @@ def gen_cases(rng, spec, n):
             c = kgen.gen_chain(rng, i)
         elif base == 'decided':
             c = kgen.gen_decided(rng, i)
+        elif base == 'launcher':
+            c = kgen.gen_launcher(rng, i)
         elif base == 'ack':
             c = kgen.gen_ack(rng, i)
         elif base == 'untilfail':
             c = kgen.gen_until_fail(rng, i)        # already a split plan
+        elif base == 'crashplan':
+            c = kgen.gen_crash_plan(rng, i)       # already a split plan
         elif base == 'untilreact':
             c = kgen.gen_until_react(rng, i)      # already a split plan
         elif base == 'store':
@@ -104,6 +108,10 @@ def _run_cases(cases, oracles, nontrivial, attribute=None):
         for n_ in runners[c.cid].notes:
             if n_[0] == 'cond-form':
                 hist[f'shape:condition operands as {n_[1]}' + (' (empty)' if n_[2] == 0 else '')] += 1
+            elif n_[0] == 'retev':
+                hist[f'shape:process returns an event object ({n_[1]})'] += 1
+            elif n_[0] == 'exit-unwinding':
+                hist[f'shape:with-block left by {n_[1]}' + (f'({n_[2]})' if n_[1] == 'Interrupt' else '') + ' handled outside it'] += 1
             elif n_[0] == 'evicted':
                 hist['shape:eviction decided during ' + ('a kernel step' if n_[6][0] == 'step' else f'a {n_[6][0]} call')] += 1
         txt = c.text().split('\n', 1)[1]
